@@ -790,7 +790,12 @@ def _resolve_by_eval(ft, phi, env, assume):
             try:
                 if d[0] == "phi" and d == phi:
                     continue
-                extra[k] = ieval(ft, d, env, extra, True) if d[0] != "phi" else None
+                if d[0] != "phi":
+                    extra[k] = ieval(ft, d, env, extra, True)
+                else:
+                    # a flag that is itself joined (`a || b` written out): follow the ways in that are still feasible
+                    r_ = resolve_under(ft, d, extra)
+                    extra[k] = ieval(ft, r_, env, extra, True) if (r_ is not None and r_[0] != "phi") else None
                 if extra[k] is None:
                     del extra[k]
                 else:
